@@ -49,7 +49,7 @@ def make_set(rng, avoid):
     """1-5 files: valid units with disjoint prefixes, at most one faulty file."""
     n = rng.randint(1, 5)
     files = []
-    fault = rng.choice(["none", "none", "lexical", "syntax", "semantic", "fileless"])
+    fault = rng.choice(["none", "none", "lexical", "syntax", "semantic", "fileless", "unicode"])
     for k in range(n):
         g = vgen.VGen(core.rng_for(rng.random(), k), prefix="U%d" % k, avoid=avoid)
         decls = g.unit(with_config=(k == 0 and rng.random() < 0.5), n_types=rng.randint(0, 2), n_fbs=rng.randint(0, 2),
@@ -59,10 +59,18 @@ def make_set(rng, avoid):
         # two paths that differ only in letter case are two files
         files[0][0] = "Pump.st"
         files[1][0] = "pump.st"
+    elif rng.random() < 0.4:
+        # names as projects have them: blanks, commas, non-ASCII letters, leading dashes
+        for f_, nm in zip(files, core.file_names(rng, n)):
+            f_[0] = nm
     bad_index = None
     if fault != "none":
         bad_index = rng.randrange(n)
-        if fault == "fileless":
+        if fault == "unicode":
+            # a faulty file whose offending token / comment / string is long and full of multi-byte characters
+            import hostile
+            files[bad_index][1] = hostile.unicode_case(rng)
+        elif fault == "fileless":
             # a failure whose only diagnostic carries no file position (answers built without a source span)
             files[bad_index][1] = rng.choice(FILELESS) % {"p": "U%d" % bad_index}
         elif fault == "lexical":
@@ -100,7 +108,7 @@ def shard(shard_i, nshards, payload):
                 else:
                     open(os.path.join(d, n_), "w").write(t)
             paths = [os.path.join(d, n_) for n_, _ in files]
-            expect_fail = fault != "none"
+            expect_fail = fault not in ("none", "unicode")      # a 'unicode' file may or may not be faulty: only the contract
             # ---- check: files in several orders, the directory, a mixture, a duplicated argument
             arglists = [("files", paths), ("dir", [d])]
             if len(paths) > 1:
@@ -132,7 +140,7 @@ def shard(shard_i, nshards, payload):
                 if not vs:
                     if expect_fail and r["rc"] == 0:
                         res.violation("accepted-faulty-set", "check:%s:accepted:%s" % (name, fault), {"stdout": r["out"][:80]}, case)
-                    elif not expect_fail and r["rc"] != 0 and name not in ("duplicated",):
+                    elif not expect_fail and fault != "unicode" and r["rc"] != 0 and name not in ("duplicated",):
                         codes = CODE.findall(r["err"])
                         if set(codes) - {"P9999"}:
                             res.violation("rejected-valid-set", "check:%s:rejected:%s" % (name, ",".join(sorted(set(codes)))),
@@ -239,6 +247,35 @@ def shard(shard_i, nshards, payload):
             if not vs:
                 res.distinct.add(core.key_of("odd", cmd, name))
                 res.sample({"cmd": cmd, "args": name, "rc": r["rc"], "stdout": r["out"][:40], "codes": CODE.findall(r["err"])}, 3)
+        # ---- what the offending token looks like: long, with multi-byte characters at every byte alignment (messages quote
+        # the token; a quote cut at a fixed byte count must not land inside a character)
+        align = [(ch, pad, n) for ch in ("\u00e4", "\u20ac", "\U0001F642") for pad in range(4) for n in (5, 9, 10, 11, 13, 15, 16, 17, 20, 21, 22, 31, 32, 33, 40, 63, 64, 65, 100)]
+        for j, (ch, pad, n) in enumerate(align):
+            if j % nshards != shard_i:
+                continue
+            d = os.path.join(tmp, "align%d" % j)
+            os.makedirs(d)
+            open(os.path.join(d, "long.st"), "w").write(
+                "PROGRAM p\nVAR s : STRING; END_VAR\ns := 1 '%s%s';\nEND_PROGRAM\n" % ("a" * pad, ch * n))
+            open(os.path.join(d, "good.st"), "w").write("PROGRAM g VAR x : INT; END_VAR x := 1; END_PROGRAM\n")
+            for cmd, args in (("check", [os.path.join(d, "long.st")]), ("check", [d]), ("echo", [os.path.join(d, "long.st")])):
+                r = core.run_cli([cmd] + args, tmp)
+                res.evaluations += 1
+                res.count("token-alignment-sweep")
+                case = {"cmd": cmd, "how": "long-token:%s:%d:%d" % (ch.encode("unicode_escape").decode(), pad, n), "sweep": ["align", pad, n]}
+                if r["watchdog"]:
+                    res.inconclusive.append({"why": "cli watchdog", "case": case})
+                    continue
+                vs = contract(r, cmd)
+                if cmd == "echo":
+                    vs = [v for v in vs if v[0] == "crash"]
+                for k_, sig, det in vs:
+                    res.violation(k_, "%s:long-token" % sig, det, case)
+                if r["rc"] == 0:
+                    res.violation("accepted-faulty-set", "%s:long-token:exit0" % cmd, {"stdout": r["out"][:80]}, case)
+                elif not vs:
+                    res.distinct.add(core.key_of("align", cmd, len(args[0]), ch, pad, n))
+            shutil.rmtree(d, ignore_errors=True)
         # ---- how many diagnostics: the agreement must hold for any number of them (the exit status is one byte wide)
         sweep = []
         for n in COUNTS:
